@@ -21,6 +21,7 @@ type FuncReport struct {
 	Uncontracted []string `json:"uncontracted_calls,omitempty"`
 	Assumed     []string `json:"assumed,omitempty"`
 	Notes       []string `json:"notes,omitempty"`
+	Inlined     []string `json:"inlined_callees,omitempty"`
 	SpecErrors  []string `json:"spec_errors,omitempty"`
 	UnusedSites []string `json:"unused_sites,omitempty"`
 	NObl        int      `json:"obligations"`
@@ -35,6 +36,16 @@ type Report struct {
 	Functions   []*FuncReport `json:"functions"`
 	Obligations []*Obligation `json:"obligations"`
 	Errors      []string      `json:"errors,omitempty"`
+	Skipped     []string      `json:"not_verified,omitempty"`
+}
+
+func skipped(c *Contract, prop string) bool {
+	for _, s := range c.Skip {
+		if strings.HasPrefix(s, prop+" ") || s == prop {
+			return true
+		}
+	}
+	return false
 }
 
 func hasTag(c *Contract, prop string) bool {
@@ -128,7 +139,7 @@ func main() {
 		if c.Kind != "func" || c.External {
 			continue
 		}
-		if !hasTag(c, *prop) {
+		if !hasTag(c, *prop) || skipped(c, *prop) {
 			continue
 		}
 		if re != nil && !re.MatchString(k) {
@@ -169,7 +180,7 @@ func main() {
 			// every repo function whose contract was relied on is verified in the same run
 			if re == nil {
 				for _, u := range used {
-					if c := sp.Contracts[u]; c != nil && !c.External && c.Kind == "func" && eng.fnByKey[u] != nil && !c.Trusted {
+					if c := sp.Contracts[u]; c != nil && !c.External && c.Kind == "func" && eng.fnByKey[u] != nil && !c.Trusted && !skipped(c, *prop) {
 						schedule(u)
 					}
 				}
@@ -180,6 +191,19 @@ func main() {
 		schedule(k)
 	}
 	wg.Wait()
+	for k, c := range sp.Contracts {
+		if c.Kind == "func" && !c.External && skipped(c, *prop) {
+			for _, sk := range c.Skip {
+				if strings.HasPrefix(sk, *prop) {
+					rep.Skipped = append(rep.Skipped, k+": "+sk)
+				}
+			}
+		}
+		if c.Kind == "func" && !c.External && c.Trusted {
+			rep.Skipped = append(rep.Skipped, k+": trusted (contract assumed, body not verified)")
+		}
+	}
+	sort.Strings(rep.Skipped)
 	sort.Slice(rep.Functions, func(i, j int) bool { return rep.Functions[i].Func < rep.Functions[j].Func })
 	sort.SliceStable(rep.Obligations, func(i, j int) bool { return rep.Obligations[i].Func < rep.Obligations[j].Func })
 	rep.WallS = time.Since(t0).Seconds()
@@ -242,6 +266,7 @@ func verifyOne(eng *Engine, key, prop, tmpdir string, quant bool) (fr *FuncRepor
 	fr.Uncontracted = sortedKeysB(vc.uncontracted)
 	fr.Assumed = sortedKeysB(vc.assumedUsed)
 	fr.Notes = vc.notes
+	fr.Inlined = sortedKeysB(vc.inlinedFns)
 	fr.SpecErrors = vc.specErrors
 	if vc.c != nil {
 		for k := range vc.c.Sites {
@@ -277,7 +302,8 @@ func newFuncVC(eng *Engine, fn *ssa.Function, key, prop string) *FuncVC {
 	vc := &FuncVC{eng: eng, fn: fn, key: key, prop: prop, ss: newSorts()}
 	vc.c = eng.specs.Contracts[key]
 	vc.heapSorts = map[string]string{}
-	vc.edgePC = map[edge]Term{}
+	vc.edgePC = map[edgeF]Term{}
+	vc.inlinedFns = map[string]bool{}
 	vc.sitesUsed = map[string]bool{}
 	vc.frameReported = map[string]bool{}
 	return vc
@@ -308,7 +334,7 @@ func printInfo(eng *Engine, re *regexp.Regexp) {
 		}
 		fmt.Printf("func %s  (%s) params=%v freevars=%v\n", k, vc.posStr(fn.Pos()), ps, fvs)
 		var ls []*loopInfo
-		for _, li := range vc.loops {
+		for _, li := range vc.cur.loops {
 			ls = append(ls, li)
 		}
 		sort.Slice(ls, func(i, j int) bool { return ls[i].ord < ls[j].ord })
@@ -321,11 +347,11 @@ func printInfo(eng *Engine, re *regexp.Regexp) {
 		}
 		for _, b := range fn.Blocks {
 			for _, in := range b.Instrs {
-				if n, ok := vc.callOrd[in]; ok {
-					fmt.Printf("   call %s#%d at %s\n", vc.callKeyOf[in], n, vc.posStr(in.Pos()))
+				if n, ok := vc.cur.callOrd[in]; ok {
+					fmt.Printf("   call %s#%d at %s\n", vc.cur.callKeyOf[in], n, vc.posStr(in.Pos()))
 				}
 				if r, ok := in.(*ssa.Return); ok {
-					fmt.Printf("   return#%d at %s\n", vc.retOrd[b], vc.posStr(r.Pos()))
+					fmt.Printf("   return#%d at %s\n", vc.cur.retOrd[b], vc.posStr(r.Pos()))
 				}
 			}
 		}
